@@ -143,6 +143,82 @@ func closeOrder(r *rand.Rand, dir string, t *Trace) {
 	os.RemoveAll(dir)
 }
 
+// addAcrossClose: an add that has passed the closed check and picked its memtable is held there while
+// Close runs to completion, then goes on (with a flush threshold of one byte it will want to wake the
+// flush worker, which is gone). It must come back -- with nil or the "closed" error, not with a panic.
+func addAcrossClose(r *rand.Rand, dir string, t *Trace) {
+	os.RemoveAll(dir)
+	cfg := comet.DefaultStorageConfig(dir)
+	cfg.FlushThreshold = []int64{1, 0, 1 << 60}[r.Intn(3)]
+	cfg.MemtableSizeLimit = []int64{1 << 30, 1}[r.Intn(2)]
+	cfg.CompactionInterval = time.Hour
+	v, _ := comet.NewFlatIndex(2, comet.Euclidean)
+	cfg.VectorIndexTemplate = v
+	st, err := comet.OpenPersistentHybridIndex(cfg)
+	if err != nil {
+		panic(err)
+	}
+	for i := 0; i < r.Intn(3); i++ {
+		st.AddWithID(uint32(i+1), []float32{float32(i), 1}, "", nil)
+	}
+	reached := make(chan struct{})
+	release := make(chan struct{})
+	var once sync.Once
+	comet.VerifSetHandler(func(name string, args ...uint64) {
+		if name == "mq.add.picked" {
+			once.Do(func() {
+				close(reached)
+				<-release
+			})
+		}
+	})
+	defer comet.VerifSetHandler(nil)
+	type res struct {
+		code int
+	}
+	done := make(chan res, 1)
+	go func() {
+		var e error
+		pan := catchPanic(func() { e = st.AddWithID(77, []float32{7, 7}, "", nil) })
+		c := lockCode(e)
+		if pan {
+			c = 12
+		}
+		done <- res{c}
+	}()
+	held := true
+	select {
+	case <-reached:
+	case <-time.After(5 * time.Second):
+		held = false
+	}
+	var cerr error
+	cpan := catchPanic(func() { cerr = st.Close() })
+	ccode := lockCode(cerr)
+	if cpan {
+		ccode = 12
+	}
+	close(release)
+	var ucode int
+	select {
+	case x := <-done:
+		ucode = x.code
+	case <-time.After(30 * time.Second):
+		fmt.Fprintln(os.Stderr, "DEADLOCK-WATCHDOG: an add overtaken by Close never came back")
+		os.Exit(3)
+	}
+	la := lockExists(dir)
+	c := NewCase(1700).N(2)
+	c.N(1).N(1).N(0).B(true)
+	c.N(8).N(1).Ints([]int{ccode}).Ints([]int{ucode}).B(la)
+	st2 := "lock.add_across_close"
+	if !held {
+		st2 = "lock.add_across_close_not_held"
+	}
+	t.Emit(c, st2)
+	os.RemoveAll(dir)
+}
+
 func genC17(r *rand.Rand, t *Trace, thorough bool) {
 	n := 40
 	if thorough {
@@ -153,6 +229,10 @@ func genC17(r *rand.Rand, t *Trace, thorough bool) {
 		work = os.TempDir()
 	}
 	self, _ := os.Executable()
+	for it := 0; it < 6+n/40; it++ {
+		storeCaseCounter++
+		addAcrossClose(r, filepath.Join(work, "stores", fmt.Sprintf("la%d_%d", os.Getpid(), storeCaseCounter)), t)
+	}
 	for it := 0; it < 4+n/40; it++ {
 		storeCaseCounter++
 		closeOrder(r, filepath.Join(work, "stores", fmt.Sprintf("lo%d_%d", os.Getpid(), storeCaseCounter)), t)
